@@ -43,7 +43,7 @@ class Table(Record, dict):
 REAL = ("T1", "T2")
 
 
-def run(ctx, lookup, precached=False, bare_fails=False):
+def run(ctx, lookup, precached=False, bare_fails=False, ranked_only=False):
     """-> (outcome, number of resolutions, table) where outcome is ('value', v) or ('raised', v)"""
     repo = ctx.repo
     multi = A.multimap(repo)
@@ -104,11 +104,18 @@ def run(ctx, lookup, precached=False, bare_fails=False):
     if precached:
         fill(me)
         dict.pop(me, (codes["A"],) + REAL, None)
+    if ranked_only:
+        # the candidates were ranked (their code objects recorded) but no entry was stored yet: another thread is in
+        # the middle of this resolution, or an earlier one failed after the ranking
+        me.all[REAL] = {codes["A"], codes["B"], codes["C"]}
     key = REAL if lookup == "bare" else (codes[lookup],) + REAL
     try:
         out = ("value", me[key])
     except Raised as r:
         out = ("raised", getattr(r, "value", None) or r.what)
+    except (KeyError, IndexError, TypeError, AttributeError) as ex:
+        # the interpreted handler fails on the stand-ins the way it would on the real table
+        out = ("raised", Record(kind="error", what=f"an internal {type(ex).__name__} ({ex})"))
     return out, len(calls), dict(H0=H0, H1=H1, ERR_B=ERR_B, ERR0=ERR0)
 
 
@@ -137,6 +144,12 @@ def check(ctx):
     out, n, t = run(ctx, "C", precached=True)
     if n != 0:
         problems["no-recomputation"].append(f"a continuation lookup for an already resolved type tuple runs the resolution again ({n} times)")
+    out, n, t = run(ctx, "X", precached=True)
+    if out != ("value", t["H0"]):
+        problems["fresh-lookup-fallback"].append(f"with the bare key already resolved, a caller that is not applicable to the arguments does not get the entry of the bare key: the lookup {_describe(out)}")
+    out, n, t = run(ctx, "A", ranked_only=True)
+    if out != ("value", t["H1"]) or n != 1:
+        problems["forces-bare-resolution"].append(f"when the candidates of the type tuple are already recorded but its entries are not stored yet (a resolution under way in another thread, or one that failed after ranking), the continuation lookup {_describe(out)} after {n} resolutions instead of resolving the bare key and returning the continuation")
     out, n, t = run(ctx, "bare")
     if n != 1 or out != ("value", t["H0"]):
         problems["main:errors-before-reread"].append(f"a first lookup of a bare key runs {n} resolutions and {_describe(out)} instead of returning the stored entry after one")
@@ -147,3 +160,71 @@ def check(ctx):
     if out != ("raised", t["ERR0"]):
         problems["forces-bare-resolution"].append(f"the ambiguity of the bare key does not reach a continuation lookup: it {_describe(out)}")
     return problems
+
+
+# ------------------------------------------------------------------------------------------- the call without arguments
+def check_empty_call(ctx):
+    """Interpret `register` for one method and then a lookup of the empty key: -> dict scenario -> problem or None.
+
+    Reference (C03: a call shape an applicable method accepts is not rejected): a method all of whose parameters have
+    defaults accepts the call without arguments, like a method without parameters does; a method with a required
+    parameter does not."""
+    repo = ctx.repo
+    multi = A.multimap(repo)
+    reg = multi.methods.get("register")
+    miss = multi.methods["__missing__"]
+    if reg is None:
+        raise AnalysisError(f"{multi.key}: no register method")
+    init = multi.methods.get("__init__")
+    raw = repo.raw_methods(multi)
+    out = {}
+    scen = {
+        "no-parameters": (dict(types=(), req_pos=0, max_pos=0, req_names=frozenset()), True),
+        "all-positional-optional": (dict(types=("T",), req_pos=0, max_pos=1, req_names=frozenset()), True),
+        "all-keyword-optional": (dict(types=(("k", "T"),), req_pos=0, max_pos=0, req_names=frozenset()), True),
+        "one-required": (dict(types=("T",), req_pos=1, max_pos=1, req_names=frozenset()), False),
+        "required-keyword": (dict(types=(("k", "T"),), req_pos=0, max_pos=0, req_names=frozenset({"k"})), False),
+    }
+    for name, (sigv, accepted) in scen.items():
+        handler = Record(kind="the method", __name__="m")
+
+        class PerArg(dict):
+            def register(self, cls, entry):
+                self.setdefault(cls, []).append(entry)
+
+        def key_error(key, group=None, *rest):
+            return Record(kind="error", what="no method", key=key, group=group)
+
+        me = Table(name="tbl")
+        genv = {"CodeType": Code, "MISSING": "<MISSING>", "is_dependent": lambda t: False, "count": lambda *a: Record(kind="counter"), "math": __import__("math")}
+        for c in miss.module.classes.values():
+            if c is not multi and "register" in c.methods and "__missing__" in c.methods:
+                genv[c.name] = PerArg
+        funcs = {n: f.node for n, f in miss.module.funcs.items() if f.parent is None and f.cls is None}
+        hi = HostInterp(raw, me, {}, globals_env=genv, classes={}, functions=funcs)
+        hi.host_types = hi.host_types + (Table, Code, PerArg)
+        me._on_miss = lambda key: hi.call_function(raw["__missing__"], [me, key], {}, {})
+        try:
+            if init is not None:
+                hi.call_function(raw["__init__"], [me] + [HostFn(key_error) if p in ("key_error",) else "<arg>" for p in init.params[1:]], {}, {})
+            for f in [a for a, v in me.__dict__.items() if v == "<arg>"]:
+                pass
+            # the error factory is the constructor argument stored and later called with (key, group)
+            for a, v in list(me.__dict__.items()):
+                if v == "<arg>":
+                    setattr(me, a, HostFn(key_error) if any(isinstance(c, ast.Call) and isinstance(c.func, ast.Attribute) and c.func.attr == a for c in ast.walk(miss.node)) else "tbl")
+            sig = Record(vararg=False, priority=0, tiebreak=0, **sigv)
+            hi.call_function(raw["register"], [me, sig, handler], {}, {})
+            try:
+                got = ("value", me[()])
+            except Raised as r:
+                got = ("raised", getattr(r, "value", None) or r.what)
+        except (Raised, TypeError, AttributeError, KeyError) as e:
+            raise AnalysisError(f"{reg.key}: registration not interpretable on a stand-in table: {type(e).__name__}: {e}")
+        if accepted and got != ("value", handler):
+            out[name] = f"the call without arguments {_describe(got)} although the only method has no required parameter"
+        elif not accepted and got[0] != "raised":
+            out[name] = f"the call without arguments {_describe(got)} although the method requires an argument"
+        else:
+            out[name] = None
+    return reg, out
